@@ -5,6 +5,7 @@
   words of the property and the `decide`d witness of the table-overlap quirk.
 -/
 import FianoModel.Uefi.FaithfulNvar
+import FianoModel.Nvram.OverlapGuard
 
 namespace Fiano.NvFaithful
 open Fiano Fiano.Nvram
@@ -371,6 +372,8 @@ theorem walk_spec (pol : Nat) (sb : Bytes) : ∀ (f fso gso : Nat) (gs : List By
         rw [hgso] at this; exact this
       · rename_i v gs' hn
         obtain ⟨h1, h2, h3, h4, h5, h6, h7, h8, h9, h10, h11, h12, h13⟩ := newNVar_some _ _ _ _ _ _ _ _ hT hn
+        split at h
+        · cases h
         obtain ⟨rest, hr1, hr2, hr3, hr4, hr5, hr6⟩ := ih _ _ _ _ _ h11 rfl h
         refine ⟨v :: rest, by rw [hr1]; simp, hr2, hr3, hr4, hr5, ?_⟩
         have hsl : (slice sb fso (gso - fso)).length = gso - fso := by
@@ -395,11 +398,12 @@ theorem walk_spec (pol : Nat) (sb : Bytes) : ∀ (f fso gso : Nat) (gs : List By
 
 /-- **`NewNVarStore` returns a faithful store, for every byte string and polarity** -/
 theorem nv_faithful (pol : Nat) (b : Bytes) (s : Store) (hp : parseStore pol b = .ok s) : NvF pol s b := by
+  have hle := parseStore_fso_le_gso pol b s hp
   unfold parseStore at hp
   obtain ⟨rest, h1, h2, h3, h4, h5, h6⟩ := walk_spec pol b _ _ _ _ _ s (tableOk_nil b) (by simp) hp
   simp only [List.nil_append] at h1
   rw [← h1] at h6
-  exact ⟨h2, h3, h4, h5, h6⟩
+  exact ⟨h2, h3, h4, h5, h6, hle⟩
 
 theorem nestedOf_parse (pol : Nat) (v : NVar) (ns : Store) (h : nestedOf pol v = some ns) :
     parseStore pol (content v) = .ok ns := by
